@@ -159,6 +159,43 @@ def check_spec(spec: NetSpec, label, st: Stats, plan):
                         break
                     compare(spec, nxt, refmodel.step(spec, eff, P), st, f"numpy (initial conditions {mlabel}, rest filled with {FILL})",
                             case, problems)
+        # ---- whole-number states given as caller arrays of INTEGER dtype (0-d and length-1 scalars), twice on the same objects
+        if full and plan.get("partial"):
+            for vlabel, val in valgen.vectors(spec, 0):
+                vi = {k: [float(round(x)) if abs(x) != float("inf") else x for x in v] for k, v in val.items()}
+                ref_ = refmodel.step(spec, vi, P)
+                for shape in ("1d", "0d"):
+                    st.inc("executions", 2)
+                    case = {"spec": spec.describe(), "config": label, "P": P, "val": {f"{k[0]}.{k[1]}": v for k, v in vi.items()},
+                            "engine": "numpy", "integer": shape}
+                    try:
+                        b_ = build(spec)
+                        np_step(spec, vi, P, built=b_, integer=True, scalar_shape=shape)
+                        nxt = np_step(spec, vi, P, built=b_, integer=True, scalar_shape=shape)[0]
+                    except Exception as e:  # noqa: BLE001
+                        problems.append((f"{PROP}/exception/{exc_site(e)}/{type(e).__name__}", f"numpy (integer caller arrays): "
+                                         f"{exc_text(e)}", case))
+                        break
+                    compare(spec, nxt, ref_, st, f"numpy (integer caller arrays, {shape} scalars, second step)", case, problems)
+        # ---- every whole-number parameter (link, ramp, model) given as a Python int, integer caller arrays too
+        if full and plan.get("partial"):
+            from ..spec import integer_typed
+            sp_i, ov_i, P_i = integer_typed(spec, P)
+            for vlabel, val in valgen.vectors(sp_i, 0):
+                vi = {k: [float(round(x)) if abs(x) != float("inf") else x for x in v] for k, v in val.items()}
+                st.inc("executions", 2)
+                case = {"spec": sp_i.describe(), "config": label, "P": P, "val": {f"{k[0]}.{k[1]}": v for k, v in vi.items()},
+                        "engine": "numpy", "int_params": True}
+                try:
+                    nxt = np_step(sp_i, vi, P_i, built=build(sp_i, override=ov_i), integer=True)[0]
+                    F_, b_, _ = cs_compile(sp_i, "SX", P_i, compact=0, override=ov_i)
+                    nxt2 = Compiled(F_, b_).eval_many([vi])[0]
+                except Exception as e:  # noqa: BLE001
+                    problems.append((f"{PROP}/exception/{exc_site(e)}/{type(e).__name__}", f"integer-typed parameters: {exc_text(e)}", case))
+                    break
+                ref_ = refmodel.step(sp_i, vi, {k: float(v) for k, v in P_i.items()})
+                compare(sp_i, nxt, ref_, st, "numpy (integer-typed parameters and arrays)", case, problems)
+                compare(sp_i, nxt2, ref_, st, "SX (integer-typed parameters)", dict(case, engine="SX"), problems)
         # ---- every element an instance of a user-defined subclass of its library class (NumPy and compiled SX)
         if full and plan.get("partial"):
             for vlabel, val in valgen.vectors(spec, 0):
@@ -339,6 +376,20 @@ def replay(case):
         np_step(spec, valgen.base_vector(spec, 1), P, built=b_, engine=eng_)
         nxt = np_step(spec, val, P, supply=supply, engine=eng_, built=b_)[0]
         ref = refmodel.step(spec, filled(spec, val, supply, case["fill"]), P)
+    elif case.get("int_params"):
+        from ..spec import integer_typed
+        sp_i, ov_i, P_i = integer_typed(spec, P)
+        ref = refmodel.step(sp_i, val, {k: float(v) for k, v in P_i.items()})
+        if case.get("engine") == "SX":
+            F_, b_, _ = cs_compile(sp_i, "SX", P_i, compact=0, override=ov_i)
+            nxt = Compiled(F_, b_).eval_many([val])[0]
+        else:
+            nxt = np_step(sp_i, val, P_i, built=build(sp_i, override=ov_i), integer=True)[0]
+        spec = sp_i
+    elif case.get("integer"):
+        b_ = build(spec)
+        np_step(spec, val, P, built=b_, integer=True, scalar_shape=case["integer"])
+        nxt = np_step(spec, val, P, built=b_, integer=True, scalar_shape=case["integer"])[0]
     elif case.get("subclass"):
         if case.get("engine") == "SX":
             F_, b_, _ = cs_compile(spec, "SX", P, compact=0, built=build(spec, subclass=True))
